@@ -144,6 +144,20 @@ def piGrad (am ph : PRBM α n h a) (phase : Bool) (v vp : Fin n → α) : CPRBM 
    { W := fun _ _ => 0, U := fun k j => (1 / two) * ((sig' k).2 * temp j), b := fun _ => 0, c := fun _ => 0,
      d := fun k => if phase then 0 else (sig k).2 })
 
+/-- `pi_grad(v, vp, phase, expand=False)` — the DEFAULT value of `expand` (density_matrix.py:191-193) — for one pair:
+the arguments of the complex sigmoid are `rbm_am.mixing_term(v + vp)` and `rbm_ph.mixing_term(v - vp)`; the latter ADDS the
+phase network's auxiliary bias `d_μ`, which `pi` and the `expand=True` branch never use. The training code never takes this
+branch (`am_grads` / `ph_grads` pass `expand=True`); modelled as the code computes it, compared at auxiliary level. -/
+def piGradNoExpand (am ph : PRBM α n h a) (phase : Bool) (v vp : Fin n → α) : CPRBM α n h a :=
+  let sig : Fin a → C α := fun k =>
+    csigmoid (am.mixingTerm (fun j => v j + vp j) k) (ph.mixingTerm (fun j => v j - vp j) k)
+  let sig' : Fin a → C α := fun k => if phase then C.mul (sig k) C.I else sig k
+  let temp : Fin n → α := fun j => if phase then v j - vp j else v j + vp j
+  ({ W := fun _ _ => 0, U := fun k j => (1 / two) * ((sig' k).1 * temp j), b := fun _ => 0, c := fun _ => 0,
+     d := fun k => if phase then 0 else (sig k).1 },
+   { W := fun _ _ => 0, U := fun k j => (1 / two) * ((sig' k).2 * temp j), b := fun _ => 0, c := fun _ => 0,
+     d := fun k => if phase then 0 else (sig k).2 })
+
 /-- `am_grads(v)[τ1, τ2]` = `gamma_grad(+1) + pi_grad(phase=False)` -/
 def dmAmGrads (am ph : PRBM α n h a) (v vp : Fin n → α) : CPRBM α n h a :=
   let p := piGrad am ph false v vp
